@@ -522,3 +522,404 @@ def c11_oracle(c, impl):
     if kv['again'] != kv['s']:
         f.append('padding is not idempotent on %r' % s)
     return f
+
+
+# ------------------------------------------------------------------ sequences: shared helpers
+
+def go_clean(p):
+    """port of the documented filepath.Clean rules (Unix)"""
+    if p == '':
+        return '.'
+    rooted = p.startswith('/')
+    out = []
+    for e in p.split('/'):
+        if e == '' or e == '.':
+            continue
+        if e == '..':
+            if out and out[-1] != '..':
+                out.pop()
+            elif not rooted:
+                out.append('..')
+        else:
+            out.append(e)
+    body = '/'.join(out)
+    if rooted:
+        return '/' + body
+    return body or '.'
+
+
+PAD_TOKEN_RE = re.compile(r'#|@|\$F|<UDIM>|%\(UDIM\)d|%\d*d', re.ASCII)
+
+
+def unambiguous(d, b, r, p, e):
+    """the C03 domain, in the property's words"""
+    if d and not d.endswith('/'):
+        return False
+    if '/' in b:
+        return False
+    name = d + b
+    if '\n' in name or PAD_TOKEN_RE.search(name):
+        return False
+    tail = re.search(r'[:xy\d,-]*\Z', name, re.ASCII).group(0)
+    if re.search(r'[\d-]', tail):
+        return False
+    if r != '' and not re.fullmatch(r'-?\d+(-(-?\d+)([:xy]-?\d+)?)?(,-?\d+(-(-?\d+)([:xy]-?\d+)?)?)*', r, re.ASCII):
+        return False
+    if not (re.fullmatch(r'[#@]+', p) or re.fullmatch(r'%\d*d', p, re.ASCII) or re.fullmatch(r'\$F\d*', p, re.ASCII)
+            or p in ('<UDIM>', '%(UDIM)d')):
+        return False
+    if e and (not e.startswith('.') or '\n' in e):
+        return False
+    return True
+
+
+def expand_comp(a, b, md, n):
+    if md is None:
+        return walk_dir(a, b, 1)
+    k = abs(n)
+    if md == 'x':
+        return walk_dir(a, b, k)
+    if md == 'y':
+        skip = set(walk_dir(a, b, k))
+        return [v for v in walk_dir(a, b, 1) if v not in skip]
+    out = []
+    for j in range(k, 0, -1):
+        out += walk_dir(a, b, j)
+    return out
+
+
+def gen_range_comps(rng, maxcomp=3, lo=-12, hi=40):
+    """(text, frames) of a valid undecorated range"""
+    parts, frames = [], []
+    for _ in range(rng.randint(1, maxcomp)):
+        a = rng.randint(lo, hi)
+        k = rng.random()
+        if k < 0.25:
+            parts.append(str(a))
+            frames += [a]
+            continue
+        b = rng.randint(lo, hi)
+        if k < 0.6:
+            parts.append('%d-%d' % (a, b))
+            frames += walk_dir(a, b, 1)
+            continue
+        md = rng.choice('xxy:')
+        n = rng.randint(1, 5) * rng.choice([1, 1, 1, -1])
+        parts.append('%d-%d%s%d' % (a, b, md, n))
+        frames += expand_comp(a, b, md, n)
+    return ','.join(parts), dedup_first(frames)
+
+
+def seq_tuple(rng):
+    d = gens.directory(rng)
+    b = gens.basename(rng)
+    r, frames = gen_range_comps(rng) if rng.random() < 0.85 else ('', None)
+    p = rng.choice(gens.PAD_TOKENS)
+    e = gens.extension(rng)
+    st = rng.choice([0, 1])
+    return d, b, r, frames, p, e, st
+
+
+def expected_paths(d, b, e, frames, w):
+    return [d + b + py_zfill(f, w) + e for f in frames]
+
+
+# ------------------------------------------------------------------ C03
+
+def c03_cases(rng, tier):
+    out = []
+    n = 12000 if tier == 'quick' else 300000
+    tries = 0
+    while len(out) < n and tries < n * 5:
+        tries += 1
+        d, b, r, frames, p, e, st = seq_tuple(rng)
+        if not unambiguous(d, b, r, p, e):
+            continue
+        s = d + b + r + p + e
+        out.append(case('seq', [s, st], '%r style=%d' % (s, st), 'pad:' + ('hash' if p[0] in '#@' else p[:2]) + (':norange' if r == '' else ''),
+                        dict(d=d, b=b, r=r, frames=frames, p=p, e=e, st=st, s=s)))
+    return out
+
+
+def c03_oracle(c, impl):
+    st, kv, bare = impl
+    m = c['meta']
+    if st != 'OK':
+        return ['parse failed with status ' + st]
+    f = []
+    got = dict(dir=unhx(kv['dir']).decode('latin-1'), base=unhx(kv['base']).decode('latin-1'),
+               frange=unhx(kv['frange']).decode('latin-1'), pad=unhx(kv['pad']).decode('latin-1'),
+               ext=unhx(kv['ext']).decode('latin-1'))
+    exp = dict(dir=m['d'], base=m['b'], frange=m['r'], pad=m['p'], ext=m['e'])
+    if got != exp:
+        f.append('components %r, expected %r' % (got, exp))
+    w = py_pad_size(m['st'], m['p'])
+    if int(kv['zfill']) != w:
+        f.append('pad width %s, the token %r denotes %d under style %d' % (kv['zfill'], m['p'], w, m['st']))
+    if unhx(kv['string']).decode('latin-1') != m['s']:
+        f.append('String() = %r' % unhx(kv['string']))
+    if unhx(kv['fmt']).decode('latin-1') != m['s']:
+        f.append('Format() = %r' % unhx(kv['fmt']))
+    if m['frames'] is not None:
+        if kv['hasfs'] != '1' or int(kv['len']) != len(m['frames']):
+            f.append('frame set has %s frames, the range denotes %d' % (kv['len'], len(m['frames'])))
+        elif m['frames']:
+            ps = [unhx(x).decode('latin-1') for x in kv['paths'].split(',')][1:-1]
+            if ps != expected_paths(m['d'], m['b'], m['e'], m['frames'], w):
+                f.append('frame paths do not follow the frame set of the range')
+    else:
+        if kv['hasfs'] != '0':
+            f.append('a frame set appeared although the range is empty')
+    return f
+
+
+# ------------------------------------------------------------------ C04
+
+def c04_cases(rng, tier):
+    out = []
+    n = 5000 if tier == 'quick' else 150000
+    tries = 0
+    while len(out) < n and tries < n * 5:
+        tries += 1
+        d, b, r, frames, p, e, st = seq_tuple(rng)
+        if r == '' or not unambiguous(d, b, r, p, e):
+            continue
+        if rng.random() < 0.3:
+            p = rng.choice(['#', '@']) * rng.randint(1, 12)
+        s = d + b + r + p + e
+        probes = [rng.choice([0, 1, -1, 7, -7, 12, 100, -100, 99999, -99999, 123456789, rng.randint(-2000, 2000)]) for _ in range(4)]
+        out.append(case('seq', [s, st] + [str(x) for x in probes], '%r style=%d probes=%s' % (s, st, probes), 'sequence',
+                        dict(kind='seq', d=d, b=b, r=r, frames=frames, p=p, e=e, st=st, s=s, probes=probes)))
+    m = 5000 if tier == 'quick' else 150000
+    for _ in range(m):
+        d = gens.directory(rng)
+        b = gens.basename(rng)
+        k = rng.random()
+        if k < 0.8:
+            digits = str(rng.randint(0, 10 ** rng.randint(1, 6)))
+            digits = '0' * rng.choice([0, 0, 1, 2, 3, 5]) + digits
+            if rng.random() < 0.2:
+                digits = '-' + digits
+        elif k < 0.9:
+            digits = ''
+        else:
+            digits = rng.choice(['-0', '-00', '0', '000', '-000123', '00000000000000000001', '123456789012345678'])
+        e = gens.extension(rng)
+        if rng.random() < 0.1:
+            e = rng.choice(['.tar.gz', '.v1.exr', '.1', '.a1', '.1a', '._', '.x.y.z', '.e-x'])
+        s = d + b + digits + e
+        if s == '' or '#' in s or '@' in s:
+            continue
+        st = rng.choice([0, 1])
+        out.append(case('seq', [s, st], '%r style=%d' % (s, st), 'concrete:' + ('noframe' if digits == '' else ('neg' if digits[0] == '-' else 'pos')),
+                        dict(kind='file', s=s, st=st)))
+    return out
+
+
+def c04_oracle(c, impl):
+    st, kv, bare = impl
+    m = c['meta']
+    if st != 'OK':
+        return ['parse failed with status ' + st]
+    f = []
+    ps = [unhx(x).decode('latin-1') for x in kv['paths'].split(',')]
+    if m['kind'] == 'file':
+        if ps[1] != m['s']:
+            f.append('Index(0) = %r for the concrete path %r' % (ps[1], m['s']))
+        return f
+    w = py_pad_size(m['st'], m['p'])
+    exp = expected_paths(m['d'], m['b'], m['e'], m['frames'], w)
+    if ps[0] != '' or ps[-1] != '':
+        f.append('an index outside [0,len) gave %r / %r' % (ps[0], ps[-1]))
+    if ps[1:-1] != exp:
+        bad = [i for i, (x, y) in enumerate(zip(ps[1:-1], exp)) if x != y]
+        f.append('path at index %s is %r, expected %r' % (bad[:1], ps[1:-1][bad[0]] if bad else ps[1:3], exp[bad[0]] if bad else exp[:2]))
+    if len(set(ps[1:-1])) != len(ps[1:-1]):
+        f.append('frame paths are not pairwise distinct')
+    fi = [unhx(x).decode('latin-1') for x in kv['frame'].split(',')]
+    fs = [unhx(x).decode('latin-1') for x in kv['frames'].split(',')]
+    for pr, a, b in zip(m['probes'], fi, fs):
+        e = m['d'] + m['b'] + py_zfill(pr, w) + m['e']
+        if a != e:
+            f.append('Frame(%d) = %r, expected %r' % (pr, a, e))
+        if b != e:
+            f.append('Frame("%d") = %r, expected %r' % (pr, b, e))
+    return f
+
+
+# ------------------------------------------------------------------ C12
+
+DOC_PADS = ['#', '##', '@', '@@@', '#@', '%04d', '%d', '$F3', '$F', '<UDIM>', '%(UDIM)d']
+
+
+def c12_cases(rng, tier):
+    out = []
+    n = 2500 if tier == 'quick' else 120000
+    tries = 0
+    while len(out) < n and tries < n * 5:
+        tries += 1
+        d, b, r, frames, p, e, st = seq_tuple(rng)
+        if r == '' or not unambiguous(d, b, r, p, e):
+            continue
+        s = d + b + r + p + e
+        ops = []
+        for _ in range(rng.randint(0, 8)):
+            k = rng.randrange(9)
+            if k == 0:
+                ops.append('D' + rng.choice(['/x/y', '/x/y/', 'rel', 'rel/', '/', '/a.b/c', 'q/w/e/']))
+            elif k == 1:
+                ops.append('B' + gens.basename(rng))
+            elif k == 2:
+                ops.append('E' + rng.choice(['.jpg', 'jpg', '.tar.gz', 'tar.gz', '.x', 'e']))
+            elif k == 3:
+                ops.append('P' + rng.choice(DOC_PADS))
+            elif k == 4:
+                ops.append('S' + str(rng.choice([0, 1])))
+            elif k == 5:
+                ops.append('R' + gen_range_comps(rng)[0])
+            elif k == 6:
+                ops.append('R' + gens.malformed_range(rng)[0])
+            elif k == 7:
+                ops.append('F' + gen_range_comps(rng)[0])
+            else:
+                ops.append(rng.choice(['N', 'R' + gens.range_string(rng)[0]]))
+        out.append(case('seqops', [s, st] + ops, '%r style=%d ops=%r' % (s, st, ops), 'history-%d' % min(len(ops), 5),
+                        dict(d=d, b=b, r=r, p=p, e=e, st=st, s=s, ops=ops), nontrivial=len(ops) > 0))
+    return out
+
+
+def parse_range_py(s):
+    """frames of a range string per the documented shorthand, or None"""
+    t = re.sub(r'[ #@]', '', s)
+    frames = []
+    for part in t.split(','):
+        mm = re.fullmatch(r'(-?\d+)(?:-(-?\d+)(?:([:xy])(-?\d+))?)?', part, re.ASCII)
+        if not mm:
+            return None
+        a = int(mm.group(1))
+        nums = [a]
+        if mm.group(2) is None:
+            frames.append(a)
+            continue
+        b = int(mm.group(2))
+        nums.append(b)
+        if mm.group(3) is None:
+            frames += walk_dir(a, b, 1)
+        else:
+            n = int(mm.group(4))
+            nums.append(n)
+            if n == 0:
+                return None
+            frames += expand_comp(a, b, mm.group(3), n)
+        if any(abs(x) >= 2 ** 63 for x in nums):
+            return None
+    return dedup_first(frames)
+
+
+def split_sections(line_):
+    """'OK <main> COPY <copy> PART <p1> PART <p2>' -> (main, copy, [parts]) as kv dicts (or None for nil)"""
+    toks = line_.split(' ')
+    secs, cur, name = [], [], 'MAIN'
+    for t in toks[1:]:
+        if t in ('COPY', 'PART'):
+            secs.append((name, cur))
+            cur, name = [], t
+        else:
+            cur.append(t)
+    secs.append((name, cur))
+
+    def kvs(ts):
+        if ts == ['nil']:
+            return None
+        return dict(t.split('=', 1) for t in ts if '=' in t)
+    main = kvs(secs[0][1])
+    copy = kvs(secs[1][1]) if len(secs) > 1 else None
+    parts = [kvs(s[1]) for s in secs[2:]]
+    return main, copy, parts
+
+
+def dec(kv, k):
+    return unhx(kv[k]).decode('latin-1')
+
+
+def c12_oracle(c, impl_line):
+    m = c['meta']
+    if not impl_line.startswith('OK'):
+        return ['status ' + impl_line[:20]]
+    main, copy, parts = split_sections(impl_line)
+    f = []
+    # replay the history on the components, in the property's words
+    d, b, e, p, st = m['d'], m['b'], m['e'], m['p'], m['st']
+    w = py_pad_size(st, p)
+    fr = m['r']
+    frames = parse_range_py(fr)
+    for op in m['ops']:
+        k, a = op[0], op[1:]
+        if k == 'D':
+            d = a if a.endswith('/') else a + '/'
+        elif k == 'B':
+            b = a
+        elif k == 'E':
+            e = a if a.startswith('.') else '.' + a
+        elif k == 'P':
+            p = a
+            w = py_pad_size(st, p)
+        elif k == 'S':
+            st = int(a)
+            if w >= 1:
+                # the characters are rewritten, the width never
+                p = None
+        elif k in ('R', 'F'):
+            fl = parse_range_py(a)
+            if fl is not None:
+                fr, frames = a, fl
+        elif k == 'N':
+            fr, frames = None, None
+    got = dict(dir=dec(main, 'dir'), base=dec(main, 'base'), ext=dec(main, 'ext'), frange=dec(main, 'frange'))
+    exp = dict(dir=d, base=b, ext=e, frange=fr or '')
+    if got != exp:
+        f.append('components %r, the history gives %r' % (got, exp))
+    if int(main['zfill']) != w:
+        f.append('pad width %s, the history gives %d' % (main['zfill'], w))
+    if p is not None and dec(main, 'pad') != p:
+        f.append('pad %r, the history gives %r' % (dec(main, 'pad'), p))
+    if int(main['style']) != st:
+        f.append('pad style %s, the history gives %d' % (main['style'], st))
+    pad_now = dec(main, 'pad')
+    if py_pad_size(st, pad_now) != w:
+        f.append('pad characters %r do not denote the width %d' % (pad_now, w))
+    s_exp = d + b + (fr or '') + pad_now + e
+    if dec(main, 'string') != s_exp:
+        f.append('String() = %r, components give %r' % (dec(main, 'string'), s_exp))
+    ps = [unhx(x).decode('latin-1') for x in main['paths'].split(',')]
+    if frames is not None:
+        if ps[1:-1] != expected_paths(d, b, e, frames, w):
+            f.append('frame paths do not follow the current components')
+    else:
+        if any(x != s_exp for x in ps):
+            f.append('without a frame set every index should give the string itself')
+    # Copy / Split only promise something where the string re-parses to the same components
+    if fr and unambiguous(d, b, fr, pad_now, e) and frames:
+        if copy is None:
+            f.append('Copy returned nil')
+        else:
+            for k in ('dir', 'base', 'ext', 'pad', 'zfill', 'frange', 'style', 'string', 'paths'):
+                if copy[k] != main[k]:
+                    f.append('Copy differs in %s: %r vs %r' % (k, copy[k][:60], main[k][:60]))
+                    break
+        ncomp = len(fr.split(','))
+        if len(parts) != ncomp:
+            f.append('Split gave %d parts for %d components' % (len(parts), ncomp))
+        elif any(x is None for x in parts):
+            f.append('Split returned a nil part')
+        else:
+            allp = []
+            for x in parts:
+                for k in ('dir', 'base', 'ext', 'pad', 'zfill', 'style'):
+                    if x[k] != main[k]:
+                        f.append('Split part differs in %s' % k)
+                        break
+                allp += [y for y in x['paths'].split(',')][1:-1]
+            if dedup_first(allp) != main['paths'].split(',')[1:-1]:
+                f.append('Split parts do not concatenate to the original frame paths')
+    return f
